@@ -45,7 +45,7 @@ MANIFEST = dict(
 
 NEGS = ["ConfigDecode_neg_unused.cfg", "ConfigDecode_neg_novalidate.cfg", "ConfigDecode_neg_weak.cfg",
         "ConfigDecode_neg_unset.cfg", "ConfigDecode_neg_discard.cfg"]
-INVS = ["NoPanic", "Conforms", "TStrict", "TTyped", "TConstrained", "TPlaceholders", "TNoSpuriousError", "TValues"]
+INVS = ["NoPanic", "Conforms", "TStage", "TStrict", "TTyped", "TConstrained", "TPlaceholders", "TNoSpuriousError", "TValues"]
 
 
 def path_s(p):
@@ -73,7 +73,7 @@ def case_sig(row, variants):
         s += " value=%s" % c["src"]
     if c["kind"] == "phadv":
         s += " src=%s scenario=%d" % (c["src"], c["x"])
-    if c["kind"] == "range":
+    if c["kind"] in ("range", "phrange"):
         s += " class=%d" % c["i"]
     comp = component_of(c, variants)
     return "%s comp=%s via=%s shape=%s reg=%s" % (s, comp, row["via"], row["shape"], row["reg"])
@@ -302,6 +302,37 @@ def pairs_family(v, b, variants, variants_p, points_p, d, thorough):
     return out
 
 
+def run_driver_split(b, variants_p, cases, obs, stride, d, parts=4):
+    """The sequential family is executed by `parts` driver processes (each with its own scratch directory, environment and
+    property file), every process a contiguous share of the case list; the observations are concatenated in case order."""
+    n = (len(cases) + parts - 1) // parts
+    jobs, errs = [], []
+    for k in range(parts):
+        part = cases[k * n:(k + 1) * n]
+        if not part:
+            continue
+        pin, pout = os.path.join(d, "cases_part%d.ndjson" % k), os.path.join(d, "obs_part%d.ndjson" % k)
+        vlib.write_ndjson(pin, part)
+
+        def job(pin=pin, pout=pout):
+            try:
+                vlib.run_driver(b, ["confdecode", "-variants", variants_p, "-in", pin, "-out", pout,
+                                    "-cli-stride", str(stride), "-real-stride", str(stride)], timeout=1800)
+            except BaseException as ex:
+                errs.append(ex)
+        t = threading.Thread(target=job)
+        t.start()
+        jobs.append((t, pout))
+    for t, _ in jobs:
+        t.join()
+    if errs:
+        raise errs[0]
+    with open(obs, "w") as out:
+        for _, pout in jobs:
+            with open(pout) as f:
+                out.write(f.read())
+
+
 def run(tier, v):
     import time
     t0 = time.time()
@@ -346,11 +377,18 @@ def run(tier, v):
     vlib.log("design level started at %.1fs" % (time.time() - t0))
     if len(cases) != report["cases"]:
         raise vlib.MachineryError("case file has %d lines, TLC counted %d cases" % (len(cases), report["cases"]))
+    if not thorough:
+        # quick tier: of the value classes delivered through a placeholder all kind classes (x = 1) and every 3rd class of a documented
+        # constraint (rotating with VERIF_SEED) are executed; the design-level run covers all of them, the thorough tier executes all
+        n_all = len(cases)
+        cases = [c for i, c in enumerate(cases) if c["c"]["kind"] != "phrange" or c["c"]["x"] == 1 or (i + vlib.seed()) % 3 == 0]
+        cases_p = os.path.join(d, "cases_quick.ndjson")
+        vlib.write_ndjson(cases_p, cases)
+        vlib.log("quick tier executes %d of %d cases" % (len(cases), n_all))
     # conformance
     obs = os.path.join(d, "obs.ndjson")
     stride = 1 if thorough else 3
-    vlib.run_driver(b, ["confdecode", "-variants", variants_p, "-in", cases_p, "-out", obs,
-                        "-cli-stride", str(stride), "-real-stride", str(stride)], timeout=1800)
+    run_driver_split(b, variants_p, cases, obs, stride, d)
     rows = vlib.read_ndjson(obs)
     by_case = {}
     for c in cases:
